@@ -91,6 +91,19 @@ Eval(t, x) ==
     [] t.n \in {"F", "W"} -> Eval(t.a, x)
     [] OTHER -> [ev |-> <<"?">>, val |-> 0, err |-> 0 - 1]
 
+(* Python forbids assignment expressions inside a comprehension iterable *)
+RECURSIVE NoWalrus(_)
+NoWalrus(t) ==
+  CASE t.n \in {"T", "B", "X", "null"} -> TRUE
+    [] t.n = "W" -> FALSE
+    [] t.n = "C" -> NoWalrus(t.arg) /\ NoWalrus(t.kw)
+    [] t.n \in {"Add", "And", "Or"} -> NoWalrus(t.a) /\ NoWalrus(t.b)
+    [] t.n = "If" -> NoWalrus(t.c) /\ NoWalrus(t.a) /\ NoWalrus(t.b)
+    [] t.n = "LC" -> (\A j \in DOMAIN t.items : NoWalrus(t.items[j])) /\ NoWalrus(t.elt) /\ NoWalrus(t.cond)
+    [] t.n \in {"Lam", "Def"} -> NoWalrus(t.arg)    \* a lambda / def body is its own scope
+    [] t.n = "F" -> NoWalrus(t.a)
+    [] OTHER -> FALSE
+
 (* grammar membership: X only under a binder; bounded nesting *)
 RECURSIVE WellFormed(_, _, _)
 WellFormed(t, bound, d) ==
@@ -101,7 +114,7 @@ WellFormed(t, bound, d) ==
                        /\ (IsNull(t.kw) \/ WellFormed(t.kw, bound, d - 1))
        [] t.n \in {"Add", "And", "Or"} -> WellFormed(t.a, bound, d - 1) /\ WellFormed(t.b, bound, d - 1)
        [] t.n = "If" -> WellFormed(t.c, bound, d - 1) /\ WellFormed(t.a, bound, d - 1) /\ WellFormed(t.b, bound, d - 1)
-       [] t.n = "LC" -> /\ \A j \in DOMAIN t.items : WellFormed(t.items[j], bound, d - 1)
+       [] t.n = "LC" -> /\ \A j \in DOMAIN t.items : WellFormed(t.items[j], bound, d - 1) /\ NoWalrus(t.items[j])
                         /\ WellFormed(t.elt, TRUE, d - 1)
                         /\ (IsNull(t.cond) \/ WellFormed(t.cond, TRUE, d - 1))
        [] t.n \in {"Lam", "Def"} -> WellFormed(t.arg, bound, d - 1) /\ WellFormed(t.body, TRUE, d - 1)
